@@ -389,6 +389,11 @@ RULE_TEXT = {
                  "by an evaluated operation (failing ones included) satisfies the class invariant afterwards",
     "R-REG.unchanged": "R-REG (C14 view): the state of every operand is identical before and after each evaluated "
                        "operation; refused in-place operations leave the target unchanged",
+    "R-REG.sys": "R-REG (C12 view): interpolate<T, order, vt::RecSolver<T>> evaluated abstractly for 2..4(5) nodes, every "
+                 "combination of order+1 distinct interval widths, the support as a window of a larger grid, the default and "
+                 "(sampled) every admissible boundary set: the recorded augmented matrix [M | b] has the same reduced row "
+                 "echelon form (exact rationals; right-hand sides as linear forms in the opaque ordinates and boundary "
+                 "values) as the system of the promised conditions, and the result's coefficients are the solver's unknowns",
     "R-REG.arch": "R-REG on the instantiation with the scalar archetype vt::Arch: grids, supports, evaluation, validity, "
                   "arithmetic, scalar forms, linearCombination, predicates, generator, interpolation argument checks and the "
                   "operator / bilinear-form / linear-form cases of drivers/cases.h "
